@@ -468,6 +468,31 @@ func c08(c *Ctx) {
 			r.Check(len(bad) == 0, "R08.P", "frame:written-verbatim", c.pos(f.Pos()), strings.Join(bad, "; "))
 		}
 	}
+	// "messages written ... reach the peer": Write returns when the bytes are queued in the kernel, and Close
+	// delivers the queue unless the socket was told to drop it (SO_LINGER 0 also turns the peer's end-of-stream
+	// into a reset)
+	r.Rule("R08.S", "no socket of the repository is configured to discard queued data on Close: SetLinger is called, if at all, with a negative constant (the default)", 1)
+	{
+		nf, nc := 0, 0
+		for f := range c.P.AllFunctions() {
+			if !c.inRepo(f) || len(f.Blocks) == 0 {
+				continue
+			}
+			nf++
+			for _, cs := range an.Calls(f) {
+				if !strings.HasSuffix(cs.Name, ").SetLinger") {
+					continue
+				}
+				nc++
+				args := an.CallArgs(cs.Common)
+				k, isK := an.ConstInt(args[len(args)-1])
+				r.Check(isK && k < 0, "R08.S", sprintf("linger:%s#%d", an.ShortName(f), nc), c.pos(cs.Pos()), "SetLinger with a value that is not a negative constant: what WriteMsg has queued is dropped when the connection is closed and the peer sees a reset instead of the end of the stream")
+			}
+		}
+		if nc == 0 {
+			r.Hold("R08.S", "linger:default", "", sprintf("%d functions of the repository, no SetLinger call", nf))
+		}
+	}
 	r.Rule("R08.B", "no function of packages mode and transport writes through a []byte parameter (WriteMsg's message stays what the caller handed over)", 2)
 	isReader := func(g *ssa.Function, idx int) bool { return g.Name() == "Read" } // io.Reader: the argument is the buffer to fill
 	c.paramsUntouched("R08.B", load.ModePkg, isReader)
